@@ -4,12 +4,55 @@
 use vstd::prelude::*;
 use vstd::utf8::*;
 use vstd::string::*;
+use vstd::std_specs::range::*;
 //@ extract file=minijinja/src/macros.rs item=macro:some
 verus! {
 
 // ---- trusted std contract without a vstd spec
 pub assume_specification<'a, T: Copy>[ Option::<&'a T>::copied ](o: Option<&'a T>) -> (r: Option<T>)
     ensures o is None ==> r is None, o is Some ==> r == Some(*o->0);
+
+pub assume_specification<I: core::slice::SliceIndex<str>>[ <str as core::ops::Index<I>>::index ](s: &str, i: I) -> (r: &I::Output)
+    ensures call_ensures(<I as core::slice::SliceIndex<str>>::index, (i, s), r);
+
+// ---- abstract stand-in for a type the extracted struct mentions but no extracted function touches
+pub struct SyntaxConfig { pub id: u64 }
+
+// ---- UTF-8 lemmas over vstd's definitions (proved here)
+pub proof fn lemma_cb_end(b: Seq<u8>)
+    requires valid_utf8(b),
+    ensures is_char_boundary(b, b.len() as int),
+    decreases b.len()
+{
+    if b.len() > 0 { lemma_cb_end(pop_first_scalar(b)); }
+}
+pub proof fn lemma_cb_suffix(b: Seq<u8>, off: int, n: int)
+    requires valid_utf8(b), 0 <= off <= b.len(), is_char_boundary(b, off), 0 <= n <= b.len() - off,
+    ensures is_char_boundary(b.subrange(off, b.len() as int), n) <==> is_char_boundary(b, off + n),
+        valid_utf8(b.subrange(off, b.len() as int)),
+    decreases b.len()
+{
+    valid_utf8_split(b, off);
+    if off == 0 {
+        assert(b.subrange(0, b.len() as int) == b);
+    } else {
+        let l = length_of_first_scalar(b);
+        let p = pop_first_scalar(b);
+        assert(p.subrange(off - l, p.len() as int) == b.subrange(off, b.len() as int));
+        lemma_cb_suffix(p, off - l, n);
+    }
+}
+/// an ASCII byte at a character boundary is a whole character: the next offset is a boundary too
+pub proof fn lemma_ascii_boundary(b: Seq<u8>, off: int)
+    requires valid_utf8(b), 0 <= off < b.len(), is_char_boundary(b, off), b[off] < 128u8,
+    ensures is_char_boundary(b, off + 1),
+{
+    lemma_cb_suffix(b, off, 1);
+    let suf = b.subrange(off, b.len() as int);
+    assert(suf[0] == b[off]);
+    assert(length_of_first_scalar(suf) == 1);
+    assert(is_char_boundary(pop_first_scalar(suf), 0));
+}
 
 // ---- real items
 //@ extract file=minijinja/src/compiler/lexer.rs item=enum:StartMarker drop_derive
@@ -61,7 +104,7 @@ pub open spec fn at_line_start(s: Seq<char>) -> bool decreases s.len() {
 //@ L1|invariant offset <= bytes@.len(), bytes@ == a.spec_bytes(), bytes@.len() <= isize::MAX,
 //@ L1|    forall|j: int| 0 <= j < offset ==> !is_marker_at(a.spec_bytes(), j),
 //@ L1|decreases bytes@.len() - offset
-//@ @before `let idx = some!(memchr(&bytes[offset..], b'{'));`
+//@ @inloop 1
 //@ +proof {
 //@ +    let sub = bytes@.subrange(offset as int, bytes@.len() as int);
 //@ +    assert forall|j: int| offset <= j < bytes@.len() implies sub[j - offset] == bytes@[j] by {}
@@ -80,11 +123,11 @@ pub open spec fn at_line_start(s: Seq<char>) -> bool decreases s.len() {
 //# ob name=should_lstrip_block_rule verus_fn=should_lstrip_block fn=compiler::lexer::should_lstrip_block kind=complete stmt="lstrip_blocks rule, prefix text of any length: with the flag on, a block or comment tag (never a variable tag) is stripped exactly when every character between the last line break (or the start of the text) and the tag is whitespace; with the flag off nothing is stripped (line statements / line comments always are)"
 //@ extract file=minijinja/src/compiler/lexer.rs item=fn:should_lstrip_block ret=r iter1=it
 //@ |    ensures r == (if flag && !(marker is Variable) { at_line_start(prefix@) } else { marker is LineStatement || marker is LineComment }),
-//@ @before `for c in prefix.chars().rev() {`
+//@ @start
 //@ +proof { assert(prefix@.take(prefix@.len() as int) == prefix@); }
 //@ L1|invariant it.seq() == prefix@.reverse(), flag, !(marker is Variable),
 //@ L1|    at_line_start(prefix@) == at_line_start(prefix@.take(prefix@.len() - it.index())),
-//@ @before `if is_nl(c) {`
+//@ @inloop 1
 //@ +proof {
 //@ +    let p = prefix@.take(prefix@.len() - it.index());
 //@ +    assert(it.seq()[it.index()] == c);
@@ -92,8 +135,82 @@ pub open spec fn at_line_start(s: Seq<char>) -> bool decreases s.len() {
 //@ +    assert(p.last() == c);
 //@ +    assert(p.drop_last() == prefix@.take(prefix@.len() - it.index() - 1));
 //@ +}
-//@ @before `// If we get here, we're at the start of the file`
+//@ @afterloop 1
 //@ +proof { assert(prefix@.take(0).len() == 0); }
+
+// ---- the tokenizer's handling of the text right after a block / comment tag (trim_blocks and the `+` / `-` markers)
+//@ extract file=minijinja/src/compiler/lexer.rs item=struct:WhitespaceConfig drop_derive
+//@ extract file=minijinja/src/compiler/lexer.rs item=enum:LexerState
+//@ extract file=minijinja/src/compiler/lexer.rs item=struct:Tokenizer
+
+//@ implhdr file=minijinja/src/compiler/lexer.rs item=Tokenizer
+    pub open spec fn src(&self) -> Seq<u8> { self.source.spec_bytes() }
+    pub open spec fn wf(&self) -> bool {
+        self.src().len() <= usize::MAX && self.current_offset <= self.src().len()
+            && is_char_boundary(self.src(), self.current_offset as int)
+    }
+    /// everything but the position (and the one flag handle_tail_ws may set) - the frame of the functions below
+    pub open spec fn same_config(&self, o: &Self) -> bool {
+        self.source == o.source && self.filename == o.filename && self.ws_config == o.ws_config
+            && self.paren_balance == o.paren_balance && self.pending_start_marker == o.pending_start_marker
+            && self.stack@ == o.stack@
+    }
+    /// number of bytes of one optional CR followed by one optional LF at offset off
+    pub open spec fn newline_len(b: Seq<u8>, off: int) -> int {
+        let a = if 0 <= off < b.len() && b[off] == 13u8 { 1int } else { 0int };
+        a + (if 0 <= off + a < b.len() && b[off + a] == 10u8 { 1int } else { 0int })
+    }
+
+//@ extract file=minijinja/src/compiler/lexer.rs item=fn:Tokenizer::rest ret=r
+//@ |    requires self.wf(),
+//@ |    ensures r.spec_bytes() == self.src().subrange(self.current_offset as int, self.src().len() as int),
+//@ @start
+//@ +proof { encode_utf8_valid_utf8(self.source@); lemma_cb_end(self.src()); }
+
+//@ extract file=minijinja/src/compiler/lexer.rs item=fn:Tokenizer::rest_bytes ret=r
+//@ |    requires self.wf(),
+//@ |    ensures r@ == self.src().subrange(self.current_offset as int, self.src().len() as int),
+
+// advance: same contract as in the C14 unit (position arithmetic omitted here: only the offset matters for C10)
+//@ extract file=minijinja/src/compiler/lexer.rs item=fn:Tokenizer::advance ret=r iter1=it
+//@ |    requires old(self).wf(), old(self).current_offset + bytes <= old(self).src().len(),
+//@ |        is_char_boundary(old(self).src(), old(self).current_offset + bytes),
+//@ |    ensures final(self).current_offset == old(self).current_offset + bytes,
+//@ |        final(self).same_config(old(self)), final(self).trim_leading_whitespace == old(self).trim_leading_whitespace,
+//@ |        final(self).wf(),
+//@ |        r.spec_bytes() == old(self).src().subrange(old(self).current_offset as int, old(self).current_offset + bytes),
+//@ @start
+//@ +proof { encode_utf8_valid_utf8(self.source@); lemma_cb_suffix(self.src(), self.current_offset as int, bytes as int); }
+//@ L1|invariant self.current_offset == old(self).current_offset, self.same_config(old(self)),
+//@ L1|    self.trim_leading_whitespace == old(self).trim_leading_whitespace,
+
+//# ob name=trim_blocks_one_newline verus_fn=Tokenizer::skip_newline_if_trim_blocks fn=compiler::lexer::Tokenizer::skip_newline_if_trim_blocks kind=complete stmt="text of any length: without trim_blocks nothing is skipped; with trim_blocks exactly one optional CR followed by one optional LF at the current offset is skipped (0, 1 or 2 bytes) and nothing else about the tokenizer changes; the new offset is a character boundary inside the source; no panic"
+//@ extract file=minijinja/src/compiler/lexer.rs item=fn:Tokenizer::skip_newline_if_trim_blocks
+//@ |    requires old(self).wf(),
+//@ |    ensures final(self).wf(), final(self).same_config(old(self)),
+//@ |        final(self).trim_leading_whitespace == old(self).trim_leading_whitespace,
+//@ |        final(self).current_offset == old(self).current_offset
+//@ |            + (if old(self).ws_config.trim_blocks { Self::newline_len(old(self).src(), old(self).current_offset as int) } else { 0int }),
+//@ @start
+//@ +proof {
+//@ +    encode_utf8_valid_utf8(self.source@);
+//@ +    let b = self.src(); let o = self.current_offset as int;
+//@ +    if o < b.len() && b[o] < 128u8 {
+//@ +        lemma_ascii_boundary(b, o);
+//@ +        if o + 1 < b.len() && b[o + 1] < 128u8 { lemma_ascii_boundary(b, o + 1); }
+//@ +    }
+//@ +}
+
+//# ob name=tail_ws_markers verus_fn=Tokenizer::handle_tail_ws fn=compiler::lexer::Tokenizer::handle_tail_ws kind=complete stmt="after a block / comment tag: a `+` marker removes nothing and changes nothing (it switches trim_blocks off for this side of the tag); no marker applies the trim_blocks rule above; a `-` marker moves nothing here and only requests the removal of the following whitespace"
+//@ extract file=minijinja/src/compiler/lexer.rs item=fn:Tokenizer::handle_tail_ws
+//@ |    requires old(self).wf(),
+//@ |    ensures final(self).wf(), final(self).same_config(old(self)),
+//@ |        ws is Preserve ==> final(self).current_offset == old(self).current_offset && final(self).trim_leading_whitespace == old(self).trim_leading_whitespace,
+//@ |        ws is Remove ==> final(self).current_offset == old(self).current_offset && final(self).trim_leading_whitespace,
+//@ |        ws is Default ==> final(self).trim_leading_whitespace == old(self).trim_leading_whitespace
+//@ |            && final(self).current_offset == old(self).current_offset
+//@ |                + (if old(self).ws_config.trim_blocks { Self::newline_len(old(self).src(), old(self).current_offset as int) } else { 0int }),
+}
 
 } // verus!
 fn main() {}
